@@ -11,7 +11,8 @@ def tracker_cells(prog):
 
 
 def direct(prog, bid, cell, kinds):
-    return [e for e in prog.effects(bid) if not e.chain and e.touches(cell) and e.kind in kinds]
+    """effects of the body's own statements, closures defined in it included"""
+    return [e for e in prog.effects(bid) if prog.is_own(bid, e) and e.touches(cell) and e.kind in kinds]
 
 
 def some_arm(bi, call_bb):
@@ -31,6 +32,23 @@ def some_arm(bi, call_bb):
             if 0 in arms:
                 return bi._skip_false(sw.otherwise)
     return None
+
+
+def deferred_pairing(prog, bi, e, partners):
+    """the partner operation runs in a loop that iterates over the values removed at `e` (two-phase form)"""
+    sl = Slicer(prog)
+    for pb in partners:
+        for h in bi.cfg.in_loop(pb):
+            blocks = bi.cfg.loops()[h]
+            for bb, t in bi.calls(lambda c: c.path == "std::iter::Iterator::next"):
+                if bb in blocks and t.args:
+                    s = sl.of(bi.body.id, t.args[0])
+                    if (bi.body.id, e.bb) in s.sites or any((bi.body.id, x) in s.sites for x in [e.bb]):
+                        return True
+                    # removal inside a closure built at e.bb: the aggregate's block is a site of the slice through collect()
+                    if any(site[0] != bi.body.id for site in s.sites) and bi.cfg.dominates(e.bb, bb):
+                        return True
+    return False
 
 
 def iteration_exits(bi, bb):
@@ -66,6 +84,8 @@ def r02_1(prog, out):
         root_body = prog.facts.body(b.root) if b.root else b
         if (b.impl_self or (root_body.impl_self if root_body else None)) != tracker:
             continue
+        if b.kind != "AssocFn" and not b.coroutine:
+            continue      # plain closures are judged as part of the method that defines them
         bi = prog.info(b.id)
         ins_m = direct(prog, b.id, messages, L.INSERT_KINDS)
         ins_e = direct(prog, b.id, expirations, L.INSERT_KINDS)
@@ -102,6 +122,9 @@ def r02_1(prog, out):
                 out.holds(key, bi.loc(e.bb), "a removed delivery always has its expiry entry removed too")
             elif partners and start is None and bi.cfg.escapes(e.bb, partners, iteration_exits(bi, e.bb)) is None:
                 out.holds(key, bi.loc(e.bb), "a removed delivery always has its expiry entry removed too")
+            elif partners and deferred_pairing(prog, bi, e, partners):
+                out.undecided(key, bi.loc(e.bb), "expiry entries are removed in a later loop over the removed deliveries (two-phase form): pairing holds "
+                              "iff that loop visits every removed delivery, which path analysis does not establish")
             else:
                 out.violation(key, bi.loc(e.bb), "a delivery can be removed from the ack-id map while its expiry entry stays behind: the stale entry later "
                               "expires a message that no longer exists (or resurrects an acknowledged one)")
@@ -114,6 +137,8 @@ def r02_1(prog, out):
                 out.holds(key, bi.loc(e.bb), "follows the removal of its delivery")
             elif partners and bi.cfg.escapes(e.bb, partners, iteration_exits(bi, e.bb)) is None:
                 out.holds(key, bi.loc(e.bb), "every path removes the delivery or re-inserts an expiry entry for it")
+            elif any(bi.cfg.dominates(x.bb, e.bb) and deferred_pairing(prog, bi, x, {e.bb}) for x in rem_m):
+                out.undecided(key, bi.loc(e.bb), "runs in a loop over deliveries removed earlier (two-phase form): not decided by path analysis")
             else:
                 out.violation(key, bi.loc(e.bb), "an expiry entry can be removed while its delivery stays in the map with no entry: that delivery never expires")
         for e in clr_m + clr_e:
@@ -244,8 +269,17 @@ def r02_4(prog, out):
         if b.impl_self != tracker:
             continue
         bi = prog.info(b.id)
+        # a lookup hidden in an iterator adapter that stops at the first miss
+        for bb, t in bi.calls(lambda c: c.path.split("::")[-1] in ("map_while", "take_while", "scan", "try_for_each", "try_fold")):
+            o = bi.trace(t.args[1]) if len(t.args) > 1 else None
+            if o is not None and o.kind == "agg":
+                cid = prog.qual(b, bi.agg_at(o.data).j["def"])
+                if any(x.touches(messages) and x.chain and x.chain[0][0] == cid for x in prog.effects(b.id)):
+                    n += 1
+                    out.violation("%s:%s" % (prog.short(b.id), t.callee.path.split("::")[-1]), bi.loc(bb),
+                                  "ack ids are looked up inside %s(): the first id that is not outstanding ends the whole batch, the ids after it are silently ignored" % t.callee.path.split("::")[-1])
         # lookups by ack id: remove(&id) / entry(id)
-        for e in direct(prog, b.id, messages, L.REMOVE_KINDS | {"handle"}):
+        for e in [x for x in prog.effects(b.id) if not x.chain and x.touches(messages) and x.kind in (L.REMOVE_KINDS | {"handle"})]:
             t = bi.call_at(e.bb)
             p = t.callee.path
             if p.endswith("HashMap::<K, V, S, A>::remove"):
@@ -282,10 +316,27 @@ def r02_4(prog, out):
                     continue
                 muts.append(x)
             bad = [x for x in muts if not bi.cfg.dominates(arm, x.bb)]
+            # the not-found arm must go on with the next id: it may not leave the loop
+            stops = None
+            if loop:
+                h = sorted(loop)[-1]
+                lb = bi.cfg.loops()[h]
+                sw_bb = bi.body.blocks[e.bb].term.target
+                for s in bi.cfg.succ[sw_bb]:
+                    if bi._skip_false(s) == arm or s == arm:
+                        continue
+                    # from the other arm: can an exit of the loop be reached without passing the header?
+                    exits = {x for x in bi.cfg.reach if x not in lb}
+                    pth = bi.cfg.path(s, exits, avoid={h})
+                    if pth is not None:
+                        stops = pth
             if bad:
                 out.violation(key, bi.loc(bad[0].bb), "a tracker mutation (%s) happens even when the ack id is not outstanding" % bad[0].kind)
+            elif stops is not None:
+                out.violation(key, bi.loc(stops[0]), "an unknown or stale ack id ends the processing of the whole batch: the ids listed after it are silently ignored "
+                              "although the call reports success", ["bb%d (%s)" % (x, bi.loc(x)) for x in stops][:6])
             else:
-                out.holds(key, bi.loc(e.bb), "all %d mutation(s) of the step are under the `found` arm" % len(muts))
+                out.holds(key, bi.loc(e.bb), "all %d mutation(s) of the step are under the `found` arm; an unknown id just moves on to the next one" % len(muts))
     if n < 2:
         raise CheckBroken("expected the ack-id lookups of remove() and modify(), found %d" % n)
 
